@@ -51,7 +51,7 @@ Schema ==
                                        Attr("r.q", TRec(<<Attr("y", TS, TRUE)>>), FALSE),
                                        Attr("r", TRec(<<Attr("q", TRec(<<Attr("y", TS, TRUE)>>), FALSE)>>), FALSE)>>)]],
        [name |-> "edit", annos |-> NoA, parents |-> <<[q |-> "", id |-> "all"]>>,
-        applies |-> [t |-> "some", principals |-> <<Ref("User")>>, resources |-> <<Ref("Doc"), Ref("User")>>, context |-> None]],
+        applies |-> [t |-> "some", principals |-> <<Ref("User"), Ref("Group")>>, resources |-> <<Ref("Doc"), Ref("User")>>, context |-> None]],
        [name |-> "all", annos |-> NoA, parents |-> <<>>, applies |-> [t |-> "none"]] >>] >>]
 
 RS == Resolve(Schema).v
@@ -85,7 +85,7 @@ EnvsW ==
   LET view == { [p |-> p, a |-> E("Action", "view"), r |-> r, c |-> c, store |-> s] :
                   p \in {E("User", "u1"), E("User", "u2")}, r \in {E("Doc", "d1"), E("Doc", "d2")}, c \in Range(CtxView), s \in Range(Stores) }
       edit == { [p |-> p, a |-> E("Action", "edit"), r |-> r, c |-> EmptyRec, store |-> s] :
-                  p \in {E("User", "u1"), E("User", "u2")}, r \in {E("Doc", "d1"), E("User", "u2")}, s \in Range(Stores) }
+                  p \in {E("User", "u1"), E("User", "u2"), E("Group", "g1")}, r \in {E("Doc", "d1"), E("User", "u2")}, s \in Range(Stores) }
   IN SetToSeqT(view \cup edit)
 Envs == [k \in DOMAIN EnvsW |-> EnvFromWire(EnvsW[k])]
 EnvsConform == \A k \in DOMAIN Envs : ConformsEnv(RS, Envs[k])
@@ -228,6 +228,22 @@ ScopePolicy(i) ==       \* i in 0 .. NScope - 1
       d == (i \div (Len(ScopeP) * Len(ScopeR) * Len(ScopeA))) % Len(ScopeConds) IN
   [effect |-> "permit", annos |-> <<>>, principal |-> ScopeP[a + 1], action |-> ScopeA[c + 1], resource |-> ScopeR[b + 1],
    conds |-> <<[kind |-> "when", body |-> ScopeConds[d + 1]]>>]
+\* two principal types under one action (edit: User or Group): what holds for one type must not be assumed for the
+\* other.  Checked under the action scopes edit / all actions / the group "all".
+KindForms ==
+  LET is(a, ty) == [op |-> "is", a |-> a, ty |-> ty]  n0 == Bin("gt", Acc(P, "n"), V(VInt(0)))  age == Bin("gt", Acc(P, "age"), V(VInt(0)))
+      ite(c, t, e) == [op |-> "if", c |-> c, t |-> t, e |-> e] IN
+  << n0, age, Bin("and", is(P, "Group"), n0), Bin("and", is(P, "User"), n0), Bin("and", is(P, "User"), age), Bin("and", is(P, "Group"), age),
+     Bin("or", is(P, "Group"), n0), Bin("or", is(P, "User"), n0), Bin("and", Un("not", is(P, "User")), n0), Bin("and", Un("not", is(P, "Group")), age),
+     ite(is(P, "Group"), n0, age), ite(is(P, "Group"), age, n0), ite(is(P, "User"), age, n0),
+     Bin("and", Has(P, "n"), n0), Bin("and", Has(P, "age"), age), Bin("and", Has(P, "opt"), Bin("gt", Acc(P, "opt"), V(VInt(1)))),
+     Bin("eq", Acc(P, "n"), Acc(P, "age")), Bin("and", Bin("in", P, V(E("Group", "g1"))), age), Bin("and", Bin("eq", P, V(E("Group", "g1"))), n0),
+     Bin("and", Bin("eq", P, V(E("User", "u1"))), age), Bin("and", Bin("eq", P, V(E("Group", "g1"))), age),
+     Bin("and", Bin("eq", P, R), Bin("gt", Acc(R, "age"), V(VInt(0)))), Bin("and", Bin("in", R, P), age),
+     Bin("and", Bin("and", is(P, "User"), is(R, "User")), Bin("eq", Acc(P, "age"), Acc(R, "age"))),
+     Bin("and", is(R, "User"), Bin("eq", Acc(P, "age"), Acc(R, "age"))),
+     Bin("eq", Bin("getTag", P, T1), V(VInt(1))), Bin("and", Bin("hasTag", P, T1), Bin("eq", Bin("getTag", P, T1), V(VInt(1)))),
+     Bin("and", is(P, "Group"), Bin("hasTag", P, T1)), Bin("and", Bin("and", is(P, "Group"), Bin("hasTag", P, T1)), Bin("eq", Bin("getTag", P, T1), V(VInt(1)))) >>
 Conds ==
   Flat(<< [i \in 1..NL |-> Bin("eq", Leaves[i], Leaves[i])],
           Flat([o \in DOMAIN BinOps |-> Flat([i \in 1..NL |-> [j \in 1..NL |-> Bin(BinOps[o], Leaves[i], Leaves[j])]])]),
@@ -235,6 +251,13 @@ Conds ==
           Flat([f \in DOMAIN Ext1 |-> [i \in 1..NL |-> Ext(Ext1[f], <<Leaves[i]>>)]]),
           Flat([f \in DOMAIN Ext2 |-> Flat([a \in DOMAIN Sel |-> [b \in DOMAIN Sel |-> Ext(Ext2[f], <<Leaves[Sel[a]], Leaves[Sel[b]]>>)]])]),
           InForms \o IsLikeForms \o CapForms \o GuardMatrix \o LubForms \o Guarded >>)
+\* KindForms are emitted under three action scopes of their own (idx beyond Conds)
+NKind == 3 * Len(KindForms)
+KindPolicy(j) ==        \* j in 1 .. NKind
+  LET f == ((j - 1) % Len(KindForms)) + 1  sc == ((j - 1) \div Len(KindForms)) + 1 IN
+  [effect |-> "permit", annos |-> <<>>, principal |-> ScopeAll,
+   action |-> CASE sc = 1 -> ScopeEq(E("Action", "edit")) [] sc = 2 -> ScopeAll [] OTHER -> ScopeIn(E("Action", "all")),
+   resource |-> ScopeAll, conds |-> <<[kind |-> "when", body |-> KindForms[f]]>>]
 
 NSpecial == Len(Guarded) + Len(GuardMatrix) + Len(LubForms) + Len(CapForms) + Len(InForms) + Len(IsLikeForms)
 ActionScope(k) == CASE k = 1 -> ScopeEq(E("Action", "view")) [] k = 2 -> ScopeAll [] OTHER -> ScopeIn(E("Action", "all"))
@@ -247,9 +270,10 @@ vars == <<idx, done>>
 \* idx > 0: condition idx; idx <= 0: scope policy -idx
 Init == /\ done = FALSE
         /\ idx \in { i \in DOMAIN Conds : i % Stride = 0 \/ i > Len(Conds) - NSpecial } \cup { -i : i \in { j \in 0..(NScope - 1) : j % ScopeStride = 0 } }
+                   \cup { Len(Conds) + j : j \in 1..NKind }
 Next == ~done /\ done' = TRUE /\ UNCHANGED idx
 Opts == [format |-> "TXT", charset |-> "UTF-8", openOptions |-> <<"WRITE", "CREATE", "APPEND">>]
-Emit == done => Serialize(ToJson([op |-> "typing", policy |-> IF idx > 0 THEN PolicyOf(idx) ELSE ScopePolicy(-idx)]) \o "\n", "cases.ndjson", Opts).exitValue = 0
+Emit == done => Serialize(ToJson([op |-> "typing", policy |-> IF idx > Len(Conds) THEN KindPolicy(idx - Len(Conds)) ELSE IF idx > 0 THEN PolicyOf(idx) ELSE ScopePolicy(-idx)]) \o "\n", "cases.ndjson", Opts).exitValue = 0
 \* the schema and the environments, emitted once (a table for the harness and the validating trace)
 EmitTable == (done /\ idx = CHOOSE i \in { j \in DOMAIN Conds : j % Stride = 0 \/ j > Len(Conds) - Len(Guarded) } : TRUE) =>
                Serialize(ToJson([op |-> "typingtable", schema |-> Schema, envs |-> EnvsW]) \o "\n", "table.ndjson", Opts).exitValue = 0
